@@ -274,7 +274,7 @@ func (x *Exec) arrayToStorage(st *State, id string, t types.Type, v Val) {
 	x.byteAt(v.S, "0", at.Elem())
 	l.ups = append(l.ups, Upd{arr: id, n: sInt(at.Len()), fromVal: v.S, fromFn: "elemAt." + typeName(at.Elem())})
 	x.arrOrigin[id] = originInfo{val: v.S, t: t, n: at.Len()}
-	st.hv++
+	st.bumpWrite(id, []string{v.S})
 }
 
 func (x *Exec) elemFieldAddr(base Val, field int) Val {
